@@ -291,6 +291,9 @@ def run_scenario(spec):
             r.git("checkout", "-q", "feature")
         pre_head = r.head()
         orig_notes = {o: r.note_text(o) for o in origs}
+        # every note that exists before the operation (the replay merges prompt records from the whole original
+        # history of a session, also from commits that are not part of the rewritten / picked range)
+        pre_notes = [t for t in (r.note_text(c) for c in r.notes_list()) if t]
         # ---- snapshot
         twin = os.path.join(env.root, "b")
         shutil.copytree(r.path, twin, symlinks=True)
@@ -359,7 +362,7 @@ def run_scenario(spec):
                 if blob_at(r, o, p) != blob_at(r, n, p):
                     differing.append([i, p])
         obs.update({"ok": True, "origs": origs, "orig_notes": orig_notes, "runs": runs, "tracked": tr_paths,
-                    "pairs": pairs, "differing": differing, "world_commits": list(world_commits.values()),
+                    "pairs": pairs, "differing": differing, "pre_notes": pre_notes, "world_commits": list(world_commits.values()),
                     "missing_note": [o for o, _ in pairs if not orig_notes.get(o)],
                     "sessions": sorted(sessions), "ncmd": env.ncmd,
                     "ghost": [{f: [[l.text, e2e.short_hash(l.who, "mock_agent") if l.who else None, l.born] for l in ls]
@@ -458,10 +461,10 @@ def judge(res, obs, driver_reqs):
         res.oracle_failure("twin-histories-differ", wit, "the rewritten histories differ between the twins")
         res.tag(tags); return
     n_equiv = n_cum = n_mis = 0
-    # every version of every prompt record the range's (copied) notes carry, modulo the recomputed counters
+    # every version of every prompt record the range's (copied) notes and the notes of the original history carry,
+    # modulo the recomputed counters
     range_versions = {}
-    for nf_ in fast["news"]:
-        t_ = fast["notes"].get(nf_)
+    for t_ in [fast["notes"].get(nf_) for nf_ in fast["news"]] + list(obs.get("pre_notes") or []):
         p_ = e2e.parse_note(t_) if t_ is not None else None
         if p_ and not p_["errors"] and p_["meta"]:
             for h_, rec_ in (p_["meta"].get("prompts") or {}).items():
